@@ -10,6 +10,7 @@ import (
 	"fmt"
 	"image"
 	"image/color"
+	"image/draw"
 	"math"
 
 	"github.com/reactivego/ivg"
@@ -17,6 +18,7 @@ import (
 	"github.com/reactivego/ivg/encode"
 	"github.com/reactivego/ivg/generate"
 	"github.com/reactivego/ivg/mdicons"
+	"github.com/reactivego/ivg/raster/vec"
 	"github.com/reactivego/ivg/render"
 	"golang.org/x/image/math/f32"
 	"verif/rec"
@@ -141,6 +143,41 @@ var Bodies = []Body{
 		x, ok := ivg.RGBAColor(color.RGBA{0x40, 0x80, 0xc0, 0xff}).Encode1()
 		dm := ivg.DefaultMetadata
 		return digest(vb, err, a, b, c, d, r1, r2, x, ok, dm.ViewBox, ivg.DefaultPalette[63], ivg.MagicBytes, math.Float32bits(vb.MinX))
+	}},
+	{"generate->render pixels", func(s *Shared, g int) string {
+		img := image.NewRGBA(image.Rect(0, 0, 12, 10))
+		vz := vec.NewRasterizer(img)
+		vz.DrawOp = draw.Src
+		var z render.Renderer
+		z.SetRasterizer(vz, image.Rect(1, 1, 11, 9))
+		var gen generate.Generator
+		gen.SetDestination(&z)
+		gen.Reset(ivg.DefaultViewBox, s.Palette)
+		err := gen.SetEllipticalGradient(0, 0, 16, 0, 0, 8, generate.GradientSpreadRepeat, []generate.GradientStop{
+			{Offset: 0, Color: color.RGBA{0xff, 0, 0, 0xff}}, {Offset: 1, Color: color.RGBA{0, 0, 0x80, 0x80}}})
+		gen.StartPath(0, -28, -28)
+		gen.AbsLineTo(28, -28)
+		gen.RelSmoothQuadTo(-20, 40)
+		gen.ClosePathEndPath()
+		return digest(err, fmt.Sprintf("%x", img.Pix))
+	}},
+	{"encode with shared palette", func(s *Shared, g int) string {
+		var e encode.Encoder
+		pal := s.Palette
+		pal[5], pal[9] = color.RGBA{0x10, 0x20, 0x30, 0x40}, color.RGBA{}
+		if g%2 == 1 {
+			pal[0] = color.RGBA{0xff, 0xff, 0xff, 0xff} // a second, different non-default palette
+		}
+		e.Reset(ivg.ViewBox{MinX: -16, MinY: -16, MaxX: 16, MaxY: 16}, pal)
+		e.SetCReg(0, false, ivg.BlendColor(0x40, 0x80, 0xc1))
+		e.StartPath(0, 1, 2)
+		for i := 0; i < 3; i++ {
+			e.RelCubeTo(1, 2, 3, 4, 5, float32(i))
+		}
+		e.ClosePathEndPath()
+		b, err := e.Bytes()
+		vb, err2 := decode.DecodeViewBox(b)
+		return digest(err, err2, vb, fmt.Sprintf("%x", b))
 	}},
 	{"mdicons->encode", func(s *Shared, g int) string {
 		var e encode.Encoder
